@@ -78,6 +78,14 @@ def main():
                 variants.append((f"translated by {sh.tolist()}", np.array(sens, dtype=float) + sh, b + sh, list(range(len(sens))), 1e-6))
                 k = float(rng.choice([1e-3, 37.0, 1e3]))
                 variants.append((f"scaled by {k}", np.array(sens, dtype=float) * k, b * k, list(range(len(sens))), 1e-9))
+            if ci % 4 == 1:
+                # the boundary is the CONVEX HULL of the points given: a point slightly inside the hull, listed between its
+                # neighbours (a valid non-convex ring), or the points in another order, describe the same region
+                c0 = b.mean(axis=0)
+                mid = (b[0] + b[1]) / 2.0
+                dent = mid + 0.06 * (c0 - mid)
+                variants.append(("boundary with a point inside its hull", np.array(sens, dtype=float), np.vstack([b[:1], dent[None, :], b[1:]]), list(range(len(sens))), 1e-9))
+                variants.append(("boundary points reordered", np.array(sens, dtype=float), b[rng.permutation(len(b))], list(range(len(sens))), 1e-9))
             for label, coords, bnd, order, tol in variants:
                 try:
                     with warnings.catch_warnings():
@@ -98,7 +106,7 @@ def main():
                     run.violation("voronoi:weights", f"sensors {sens} boundary {boundary} ({label}): weights {np.asarray(gw).tolist()} for indices {list(gi)}, "
                                   f"exact area fractions {exp.tolist()}", rep)
                 # bounded_voronoi: the cell polygons have the same areas
-                tot = polygon_area(bnd)
+                tot = polygon_area(b + (bnd[0] - b[0]) if len(bnd) == len(b) and "reordered" not in label else b) if "scaled" not in label else polygon_area(bnd)
                 areas = np.array([polygon_area(v) for v in verts]) / tot
                 if not np.allclose(areas, exp, rtol=tol, atol=tol):
                     run.violation("voronoi:cells", f"sensors {sens} ({label}): cell areas of bounded_voronoi {areas.tolist()} differ from {exp.tolist()}", rep)
